@@ -92,6 +92,11 @@ def gen_iface_impl(prog, cs, fname, ikey):
     fc.loops = own.loops if own is not None else {}
     fc.uses = own.uses if own is not None else []
     fc.decreases = own.decreases if own is not None else None
+    if own is not None:
+        # proof aids of the implementation's own contract
+        fc.devirt = getattr(own, 'devirt', None)
+        fc.callsites = own.callsites
+        fc.opaque = own.opaque
     fc.tags = list(ic.tags)
     func = prog.funcs[fname]
     vc = VC(prog, cs, fname)
